@@ -17,7 +17,9 @@ LEVEL_NOTE = ("Trusted: the script model (uses/consumptions of each qubit object
               "type of borrowed lists at return, frozen-ness of owned-derived containers).")
 TECHNIQUE = "reference-model monitor: ownership script model vs real tracer outcome (+ HUGR validation of successes)"
 RULE = ("bodies with parameters q @owned, r (borrowed qubit), xs @owned / ys borrowed int arrays, p "
-        "(copyable struct), qp @owned / rp borrowed structs holding a qubit, qs @owned qubit array; "
+        "(copyable struct), qp @owned / rp borrowed structs holding a qubit, qs @owned qubit array, "
+        "owned tuples / arrays-of-tuples / structs with int arrays nested inside, a borrowed tuple "
+        "holding an array; "
         "3-8 ops from: borrow-call, consume-call, local allocation, every MutableSequence mutator + "
         "sort/*=/slice assignment/deletion, struct field assignment, copy(); return of none / one / "
         "several / repeated qubits. distinct = (op kind sequence, return shape)")
@@ -35,6 +37,12 @@ class P:
 @guppy.struct
 class QP:
     q: qubit
+    k: int
+
+@guppy.struct
+class SX:
+    xs: array[int, 3]
+    p: P
     k: int
 
 '''
@@ -77,7 +85,9 @@ class Model:
         self.q[x][1] = True
 
 
-VIOLATIONS = ["double-use", "use-after-consume", "leak", "mutate-owned-list", "mutate-owned-qubit-list",
+NESTED_OWNED_LISTS = ["tx[0]", "tt[0][0]", "ta[0][0]", "ta[1][0]", "sx.xs", "ta"]
+
+VIOLATIONS = ["mutate-owned-nested", "mutate-owned-nested", "double-use", "use-after-consume", "leak", "mutate-owned-list", "mutate-owned-qubit-list",
               "borrowed-consumed", "borrowed-array-length", "borrowed-array-type", "setattr-frozen",
               "return-dup", "borrowed-struct-field-type", "mutate-owned-struct-with-qubit"]
 
@@ -136,9 +146,15 @@ def build(rng):
         elif c < 0.9:
             lines.append("rp.k = 7")
             kinds.append("setattr:borrowed")
-        else:
+        elif c < 0.95:
             lines.append("_n = len(ys) + p.a + xs[0]")
             kinds.append("read")
+        elif c < 0.975:
+            lines.append("_m = tx[0][1] + tx[1] + tt[0][0][2] + tt[1] + ta[1][0][0] + ta[0][1] + sx.xs[0] + sx.p.a + bx[0][2]")
+            kinds.append("read-nested")
+        else:
+            lines.append(rng.choice(["bx[0][0] = 11", "bx[0].reverse()", "bx[0][1] = bx[0][2]"]))
+            kinds.append("legal-mutate:borrowed-nested")
     # ---- injected violation (mid-body kinds)
     pos = rng.randint(0, len(lines))
     inj = None
@@ -159,6 +175,15 @@ def build(rng):
     elif violation == "mutate-owned-list":
         src, _, _ = rng.choice(MUTATORS)
         inj = [src.format(L="xs")]
+    elif violation == "mutate-owned-nested":
+        # containers reached *through* tuples / arrays / structs of an owned argument are frozen too
+        L_ = rng.choice(NESTED_OWNED_LISTS)
+        if L_ == "ta":
+            inj = [rng.choice(["ta.reverse()", "ta.pop()", "ta.clear()", "del ta[0]", "ta *= 1"])]
+        else:
+            src, _, _ = rng.choice([m_ for m_ in MUTATORS if "{L} +=" not in m_[0] and "{L} *=" not in m_[0]
+                                    or L_ == "sx.xs"])
+            inj = [src.format(L=L_)]
     elif violation == "mutate-owned-qubit-list":
         inj = [rng.choice(["qs.reverse()", "qs.pop()", "qs.clear()", "del qs[0]", "qs[0] = qubit()",
                            "qs.append(qubit())", "qs *= 1", "qs.sort()"])]
@@ -233,7 +258,9 @@ def build(rng):
     lines.append(ret_line)
     body = "".join(f"    {l}\n" for l in lines)
     text = (HDR + "@guppy.comptime\ndef body(q: qubit @owned, r: qubit, xs: array[int, 3] @owned, "
-            "ys: array[int, 3], p: P, qp: QP @owned, rp: QP, qs: array[qubit, 2] @owned) -> "
+            "ys: array[int, 3], p: P, qp: QP @owned, rp: QP, qs: array[qubit, 2] @owned, "
+            "tx: tuple[array[int, 3], int] @owned, tt: tuple[tuple[array[int, 3], bool], int] @owned, "
+            "ta: array[tuple[array[int, 2], int], 2] @owned, sx: SX @owned, bx: tuple[array[int, 3], int]) -> "
             f"{ret_ty}:\n{body}")
     return text, violation, kinds
 
